@@ -78,7 +78,14 @@ struct Fsz {
 }
 
 fn calculator(_prog: &[u8], pc: usize, data: &mut dyn Any) -> u16 {
-    let f = data.downcast_ref::<Fsz>().expect("calculator data");
+    // rbpf hands the calculator its `Box<dyn Any>` (as `&mut dyn Any`), not the boxed value
+    let f = match data.downcast_ref::<Fsz>() {
+        Some(f) => f,
+        None => data
+            .downcast_ref::<Box<dyn Any>>()
+            .and_then(|b| b.downcast_ref::<Fsz>())
+            .expect("calculator data"),
+    };
     for (p, s) in &f.tab {
         if *p == pc {
             return *s;
@@ -275,6 +282,15 @@ fn run_case_inner(case: &Value, engine: &str) -> Value {
         steps += 1;
         steps <= budget
     })));
+    // "warm" cases: an earlier execution with a different packet must not influence this one (C09, C10)
+    if case["warm"].as_u64() == Some(1) && kind != "nodata" {
+        // (a larger packet, so that whatever is in bounds for the real one is in bounds here)
+        let other: *mut [u8] = Box::leak(vec![0x5au8; pkt.len + 13].into_boxed_slice());
+        let other_mb: *mut [u8] = Box::leak(vec![0u8; mbuf.len].into_boxed_slice());
+        let _ = std::panic::catch_unwind(std::panic::AssertUnwindSafe(|| unsafe {
+            vm.exec(engine, &mut *other, &mut *other_mb)
+        }));
+    }
     HLOG.with(|l| l.borrow_mut().clear());
 
     let res = std::panic::catch_unwind(std::panic::AssertUnwindSafe(|| {
@@ -402,6 +418,10 @@ pub fn outside_claim(case: &Value, exps: &[&Value], engine: &str) -> Option<&'st
 
 pub const SIGILL: i64 = 4;
 
+pub fn has_local_call(case: &Value) -> bool {
+    arr(&case["prog"]).iter().any(|sg| sg[1][0].as_u64() == Some(0x85) && sg[1][2].as_u64() == Some(1))
+}
+
 fn dev_of(e: &Value) -> Vec<String> {
     arr(&e["dev"]).iter().map(|d| d.as_str().unwrap_or("").to_string()).collect()
 }
@@ -470,6 +490,14 @@ fn judge_regular(case: &Value, exps: &[&Value], obs: &Value, engine: &str) -> Ju
     }
     if k == "reject" {
         return Judgement::Fail(format!("well-formed program rejected: {}", obs["msg"]));
+    }
+    if engine == "cl" && has_local_call(case) {
+        // C04: a program with an eBPF-to-eBPF call is refused by Cranelift compilation
+        return if k == "cerr" {
+            Judgement::Pass
+        } else {
+            Judgement::Fail(format!("program with a local call was not refused by cranelift_compile (outcome {k})"))
+        };
     }
     let mut reasons = Vec::new();
     for exp in exps {
